@@ -4,9 +4,11 @@ import gens, blk, compcases as cc
 from capi import Lib
 from vlib import Oracle, build_lib, hx, md5
 
-THEOREMS = ["C01_factorisation_decodes", "C01_fast_generic_roundtrip", "C01_fast_extState_roundtrip", "C01_fastReset_history", "C01_initStream_ctx_ok"]
-CORRESPONDENCE = ["Model.FastApi.compress_fast_extState == LZ4_compress_default/_fast/_fast_extState (return value, bytes, context fields, hash table)",
+THEOREMS = ["C01_factorisation_decodes", "C01_fast_generic_roundtrip", "C01_fast_extState_roundtrip", "C01_fastReset_history", "C01_initStream_ctx_ok", "C01_compress_then_decompress_safe"]
+CORRESPONDENCE = ["Model.HcMidApi (LZ4MID_compress + one-shot HC entry points at levels 1-2, LZ4_compress_HC_destSize) == the real functions over call histories on one LZ4_streamHC_t (return value, consumed, bytes, both hash tables, end index, dirty flag after every call)",
+                  "Model.FastApi.compress_fast_extState == LZ4_compress_default/_fast/_fast_extState (return value, bytes, context fields, hash table)",
                   "Model.FastApi.compress_fast_extState_fastReset == LZ4_compress_fast_extState_fastReset over call histories on one context (return value, bytes, context fields, hash table after every call)"]
+ORACLES = ["block", "mid"]
 RULE = ("inputs from seeded structured generators (random, runs, periodic, text, barely compressible, long-match, self-dictionary, mixed) "
         "with boundary sizes (0..20, 64KB+-12, 65547, 4KB+-1) and exhaustive small-alphabet strings in the thorough tier; x entry point "
         "{default, fast, fast_extState(junk state), HC, HC_extStateHC(junk state), HC fastReset (+favorDecSpeed)} x acceleration/level x capacity {bound, bound-1, n, small}; "
@@ -16,19 +18,26 @@ TRUSTED = ["hand-written model Model/Fast.v + Model/FastApi.v of LZ4_compress_ge
 ASSUMPTIONS = ["64-bit little-endian target (byPtr table mode and big-endian hashing not modelled)"]
 
 def build(tier):
-    return {"lib": build_lib("default")}
+    return {"lib": build_lib("default"), "midstate": cc.midstate_lib()}
 
 def gen_cases(tier, seed):
     rng = random.Random(seed)
     n = {"quick": 96, "search": 320, "thorough": 800}[tier]
     cases = [{"bseed": rng.randrange(1 << 48), "count": 24, "mode": "mix", "maxn": 70000 if i % 6 == 0 else 3000} for i in range(n)]
+    nm = {"quick": 16, "search": 40, "thorough": 120}[tier]
+    cases += [{"bseed": rng.randrange(1 << 48), "count": 10 if i % 8 else 2, "mode": "mid", "maxn": 9000 if i % 8 else 70000} for i in range(nm)]
     if tier == "thorough":
         for a in range(16):
             cases.append({"bseed": a, "mode": "exh", "alpha": "ab", "len": 14, "shard": a, "nshards": 16, "count": 0})
         cases.append({"bseed": 99, "count": 4, "mode": "mix", "maxn": 3000000})
     return cases
 
-worker_init = blk.worker_init
+def worker_init(ctx):
+    import ctypes
+    from capi import Lib
+    st = blk.worker_init(ctx)
+    st["midlib"] = Lib(ctx["midstate"]); st["midraw"] = ctypes.CDLL(ctx["midstate"]); st["mid"] = Oracle(name="mid")
+    return st
 
 def one(st, src, rng, res, info):
     n = len(src)
@@ -124,9 +133,43 @@ def history(st, rng, res, info):
             if blk.nontrivial_block(out):
                 res["keys"].add(cc.key_of(src, "fr", acc, cap))
 
+def mid_history(st, rng, res, info, maxn):
+    """HC levels 1-2 (LZ4MID): fast-reset one-shot calls and destSize calls on one LZ4_streamHC_t, model == code after every
+    call (bytes, both hash tables, end index, dirty flag), and every produced block judged by the specification decoder"""
+    calls = []
+    for _ in range(rng.choice([1, 2, 3, 5])):
+        n = rng.choice([0, 1, 5, 12, 13, 14, 20, 100, 1000, 3000, 4096, 9000]) if maxn < 20000 else rng.choice([100, 3000, 20000, 65536 + 40, 70000])
+        if rng.random() < 0.3:
+            n = rng.randrange(0, min(maxn, 9000))
+        kind = rng.choice(gens.KINDS)
+        src = gens.data(rng, kind, n)
+        if calls and rng.random() < 0.5:
+            prev = calls[-1][1]
+            src = (prev[:len(src) // 2] + src)[:n]
+        b = cc.bound(n)
+        if rng.random() < 0.3:
+            calls.append(("ds", src, rng.choice([1, 2, 5, 12, 13, 20, n // 3 + 1, n // 2 + 7, b, rng.randrange(1, b + 2)])))
+        else:
+            calls.append(("fr", src, rng.choice([b, b, b + 5, max(0, b - 1), n // 2 + 4, rng.randrange(0, b + 2)])))
+    level = rng.choice([1, 2])
+    outs = cc.run_mid_session(st, calls, res, info, level=level)
+    for (kind, src, r, consumed, out) in outs:
+        res["stats"]["variant_mid_" + kind] += 1
+        if r > 0:
+            err = blk.decode_checks(st, src[:consumed], out)
+            if err:
+                res["fails"].append({"status": "prop_fail", "what": "LZ4MID (level %d, %s) round trip failed: %s" % (level, kind, err),
+                                     "detail": dict(info, sizes=[len(c[1]) for c in calls], caps=[c[2] for c in calls])})
+            if blk.nontrivial_block(out):
+                res["keys"].add(cc.key_of(src, "mid" + kind, level, len(out)))
+
 def run_case(st, case):
     rng = random.Random(case["bseed"])
     res = cc.new_res()
+    if case["mode"] == "mid":
+        for j in range(case["count"]):
+            mid_history(st, rng, res, {"bseed": case["bseed"], "j": j, "mid": 1}, case["maxn"])
+        return cc.finish(res, "mid")
     if case["mode"] == "exh":
         alpha = case["alpha"].encode()
         k = 0
